@@ -58,7 +58,7 @@ PROPS = {
                         "genesis does not bond more validators than MaxValidators", "claim locks and payouts may postpone or shrink unbonding entries (shield profile): only 'never earlier' is checked there"],
     },
     "C10": {
-        "lean": ["Shentu.Props.C10"],
+        "lean": ["Shentu.Props.C10", "Shentu.Props.C20order"],
         "engines": [chain("determinism", 80, 800, ops=100, tops=200)],
         "trusted": ["modelled, not verified: the Go runtime, goleveldb, IAVL, the Cosmos SDK and Burrow (their own map iterations and caches are outside the inventory, which covers the repository's consensus code)",
                     "the restart theorem assumes that a node's in-memory state is a function of its committed state; the restarted-node runs are the validation of that hypothesis"],
@@ -66,7 +66,7 @@ PROPS = {
                         "nodes are compared in one process (Go randomises every map iteration, so two instances in one process do see different orders)"],
     },
     "C20": {
-        "lean": ["Shentu.Props.C20"],
+        "lean": ["Shentu.Props.C20", "Shentu.Props.C20order"],
         "engines": [chain("export", 96, 960, ops=100, tops=200)],
         "trusted": SDK_TRUST + ["the comparison of the original and the imported node is made by the harness on the modules' exported genesis JSON and the harness's observations (bank, vesting, oracle, shield, gov, cert, cvm, staking, distribution); SDK modules without observers (slashing, mint, upgrade, evidence, ibc, crisis) are compared through the re-export only"],
         "assumptions": ["Tendermint's convention: the state exported after block H is imported as the start of block H+1; height-indexed oracle deadlines move by that one block, and a task that was pending at the export is then aggregated one block later (its outcome may differ through what happens in that block: only collateral and withdrawals are compared for such histories)",
@@ -87,7 +87,7 @@ PROPS = {
         "trusted": VM_TRUST,
         "assumptions": VM_ASSUME,
     },
-    "C01": dict(BANKVM, lean=["Shentu.Props.C01", "Shentu.Props.C01s", "Shentu.Props.C01vm"], drivers=["chaindriver", "vmdriver"],
+    "C01": dict(BANKVM, lean=["Shentu.Props.C01", "Shentu.Props.C01s", "Shentu.Props.C01vm", "Shentu.Props.C01run"], drivers=["chaindriver", "vmdriver"],
                 engines=[chain("bankvm", 96, 960, ops=100), chain("gov", 48, 480, ops=100), chain("oracle", 48, 480), chain("shield", 32, 320, ops=120), chain("staking", 32, 320, ops=100),
                          vm("calls", 16000, 160000)],
                 assumptions=BANKVM["assumptions"] + ["arbitrary contract programs (value calls, SELFDESTRUCT to any beneficiary, failing frames) are covered by the VM engine: the accounts of the interpreter's cache hold the same sum before and after every generated call tree; the write-back of that cache to the bank is covered by the chain engine's library programs"]),
